@@ -50,6 +50,12 @@ func checks() map[string]*checkDef {
 		Assume: []string{"gitignore dialect restricted to literal names, *.ext, name/, /anchored, dir/name (no negation, no **)", "requested paths that are themselves excluded by a skip rule, or are symlinks, are not generated (statement does not fix the outcome)", "IgnoreSubDirs only together with requested paths; no nested requested pairs under the cut-off", "dispatch of dangling/directory symlinks: attempt expected, outcome not asserted"}})
 	add(&checkDef{ID: "C09", World: "scan", Level: "fault_enumeration", Quick: budget{8, 60, 120}, Thorough: budget{16, 100000, 1500}, Real: scanReal, Stub: scanStub,
 		Assume: []string{"inside a failing directory or (file, extractor) attempt an extraction may be present or absent", "a fault on a .gitignore makes the ignore rules of its directory unknown: extra extractions inside that directory are accepted", "extractors that considered a file whose lazy path-stat was faulted: status not asserted", "with fatal-on-fs-errors set and only file-level faults delivered, either overall outcome is accepted"}})
+	add(&checkDef{ID: "C10", World: "scan", Level: "fault_enumeration", Quick: budget{8, 400, 120}, Thorough: budget{16, 1000000, 1200}, Real: scanReal, Stub: scanStub,
+		Assume: []string{"'the file being handled' at a cancel instant = path of the most recent AfterInodeVisited event; further extractors on that same file may still run", "if only traversal remained after the cancel instant, either overall outcome is accepted"}})
+	add(&checkDef{ID: "C08", World: "scan", Level: "exploration", Quick: budget{8, 500, 120}, Thorough: budget{16, 1000000, 1200}, Real: scanReal, Stub: scanStub,
+		Assume: []string{"failure reasons are compared as sets of lines (the engine concatenates per-file errors in encounter order)", "Go map iteration order inside the library is sampled by repeating every schedule, not controlled", "for multi-root scans only what the statement fixes about statuses is asserted"}})
+	add(&checkDef{ID: "C20", World: "scan", Level: "exploration", Quick: budget{8, 3000, 120}, Thorough: budget{16, 3000000, 900}, Real: scanReal, Stub: scanStub,
+		Assume: []string{"findings whose advisory is present but whose advisory ID is nil are not generated (statement does not say what must happen)"}})
 	return m
 }
 
